@@ -140,9 +140,9 @@ func main() {
 		return
 	}
 	// sizes
-	capPerShape, coqExh, nRandom, coqRandom, nStruct, coqStruct := 14, 700, 12000, 500, 6000, 450
+	capPerShape, coqExh, nRandom, coqRandom, nStruct, coqStruct := 14, 1000, 12000, 900, 6000, 800
 	if cfg.Thorough() {
-		capPerShape, coqExh, nRandom, coqRandom, nStruct, coqStruct = 40, 4000, 400000, 4000, 150000, 3000
+		capPerShape, coqExh, nRandom, coqRandom, nStruct, coqStruct = 40, 6000, 400000, 9000, 150000, 6000
 	}
 	// 1. corpus + bounded-exhaustive
 	cf := newCasesFile()
